@@ -15,6 +15,7 @@ REGISTRY = {
     "C01": "joinmeet",
     "C02": "joinmeet",
     "C20": "kernels",
+    "C05": "diagram",
 }
 
 
